@@ -389,6 +389,10 @@ def _ordinal(f, c):
 
 
 def run(ck):
+    # a panic in a handler is a dropped connection: no response to this request nor to any later one (shared with C08)
+    from rules import C08
+    C08.rule_divisors(ck)
+    C08.rule_index_bounds(ck)
     rule_no_panic(ck)
     rule_seq(ck)
     rule_resp(ck)
